@@ -33,8 +33,10 @@ class C14Entered(Harness):
                 for wk in ("none", "int", "real"):
                     if N == 3 and wk == "real" and way not in ("h1", "n3"):
                         continue
-                    for post in ("none", "copy", "scale"):
+                    for post in ("none", "copy", "scale", "div", "idiv"):
                         if tier == "quick" and post != "none" and way not in ("h1", "ff", "f"):
+                            continue
+                        if post in ("div", "idiv") and (way != "h1" or (wk == "real" and N > 1)):
                             continue
                         yield f"st-N{N}-{way}-w{wk}-{post}", dict(N=N, way=way, weights=wk, post=post, M=2)
 
@@ -47,7 +49,7 @@ class C14Entered(Harness):
             x["w"] = [cx.pyfloat(f"w{i}") for i in range(N)]
             if cx.sym:
                 cx.assume(*[w > 0 for w in x["w"]])
-        if p["post"] == "scale":
+        if p["post"] in ("scale", "div", "idiv"):
             x["c"] = cx.pyfloat("c")
             if cx.sym:
                 cx.assume(x["c"] > 0)
@@ -106,6 +108,10 @@ class C14Entered(Harness):
             h = h.copy()
         elif p["post"] == "scale":
             h = h * x["c"]
+        elif p["post"] == "div":
+            h = h / x["c"]
+        elif p["post"] == "idiv":
+            h /= x["c"]
         return {"st": _st(E, h), "total": h.total}
 
     def oracle(self, cx, p, x, obs):
@@ -115,7 +121,7 @@ class C14Entered(Harness):
             return
         v = [cx.t(i) for i in x["v"]]
         w = [cx.t(i) for i in x["w"]] if "w" in x else [z3.IntVal(1)] * N
-        c = cx.t(x["c"]) if p["post"] == "scale" else z3.RealVal(1)
+        c = cx.t(x["c"]) if p["post"] == "scale" else (1 / cx.t(x["c"]) if p["post"] in ("div", "idiv") else z3.RealVal(1))
         st = obs["st"]
         S, S2, W = zsum(w[i] * v[i] for i in range(N)), zsum(w[i] * v[i] * v[i] for i in range(N)), zsum(w)
         yield "sum", cx.eq(st["sum"], c * S)
